@@ -77,6 +77,11 @@ def run(ctx, only=None):
     n = 4000 if ctx.quick() else 60000
     texts = ['', '\n', 'a', 'a\n', 'a\n\nb', '\n\na', 'a\x0cb', 'a\rb\r\nc', 'a b'] + inputs.mixed_stream(rng, n)
     texts += [t.replace('\n', rng.choice(['\r\n', '\r', '\x0c', ' '])) for t in rng.sample(inputs.spec_texts(), 60)]
+    # characters that a well-meaning entry point might treat specially at the very beginning or end of the input: a byte-order mark,
+    # a zero-width space, a NUL - in front of text that would otherwise open a block
+    odd = ['\ufeff', '\u200b', '\x00', '\ufeff\ufeff', '\u2060']
+    texts += [o + t for o in odd for t in ['# heading\n', '- item\n- two\n', '> quote\n', 'plain\n', '```\ncode\n```\n', '1. one\n', '', '\n', 'a']]
+    texts += [t + o for o in odd[:3] for t in ['plain', 'plain\n', '# h']]
     jobs = [(t, RENDERERS[i % len(RENDERERS)]) for i, t in enumerate(texts)]
     with mp.Pool(core.NPROC) as pool:
         res = pool.map(worker, jobs, chunksize=50)
@@ -121,7 +126,8 @@ def run(ctx, only=None):
         env = dict(os.environ)
         # designed first: whitespace at the end of lines is significant (hard breaks, code), as are form feeds and a missing final newline
         designed = ['foo  \nbar\n', 'foo   \nbar', '```\ncode   \n \n```\n', '    code  \t\n\n    more \n', 'a\\\nb\n', 'tab\there\t\nx\n', '> q  \n> r\n',
-                    '- a  \n  b\n', '| a  | b |\n| - | - |\n| c | d  |\n', '<pre>\nx  \n</pre>\n', 'a \n===\n', '# h  \n', ' \n \nx \n \n']
+                    '- a  \n  b\n', '| a  | b |\n| - | - |\n| c | d  |\n', '<pre>\nx  \n</pre>\n', 'a \n===\n', '# h  \n', ' \n \nx \n \n',
+                    '\ufeff# heading\n', '\ufeff- item\n']
         cli_texts = designed + [t for t in rng.sample(inputs.spec_texts(), ncli * 2) if only_lf(t)]
         ncli = ncli + len(designed) // 2
         import mistletoe
